@@ -9,4 +9,4 @@ CONSTANTS
   WithDup = FALSE
   MaxLevel = 4
 INVARIANTS TypeOK PropertyHolds
-CONSTRAINT Bounded
+CHECK_DEADLOCK FALSE
